@@ -298,6 +298,36 @@ func init() {
 				r := doRead(strings.Join(perm, "\n"), 0, nil, io.EOF, "nil", nil)
 				o.Case("prop:order-agree", sameOr(ref, r), strings.Join(perm, "\x1f"))
 			}
+			// a near-maximal {8200} segment: its position among the segments and the separator must not matter
+			if strings.Contains(n, "UnstructuredAddenda") {
+				var rest []string
+				for _, sg := range segs {
+					if !strings.HasPrefix(sg, "{8200}") {
+						rest = append(rest, sg)
+					}
+				}
+				lens := []int{9990, 9994, 9996, 9999}
+				if thorough {
+					lens = []int{9000, 9985, 9990, 9991, 9992, 9993, 9994, 9995, 9996, 9997, 9998, 9999}
+				}
+				for _, al := range lens {
+					big := fmt.Sprintf("{8200}%04d%s", al, strings.Repeat("A", al))
+					last := append(append([]string{}, rest...), big)
+					refBig := doRead(strings.Join(last, "\n"), 0, nil, io.EOF, "nil", nil)
+					first := append([]string{big}, rest...)
+					mid := append(append(append([]string{}, rest[:len(rest)/2]...), big), rest[len(rest)/2:]...)
+					for _, sep := range []string{"", "\n", "\r\n"} {
+						for pi, perm := range [][]string{last, first, mid} {
+							r := doRead(strings.Join(perm, sep), 0, nil, io.EOF, "nil", nil)
+							if strings.HasPrefix(refBig, "ok|") {
+								o.Case("prop:order-agree", sameOr(refBig, r), fmt.Sprint("long-addenda ", al, " position ", pi), sep)
+							}
+						}
+						r := doRead(strings.Join(last, sep)+sep, 0, nil, io.EOF, "nil", nil)
+						o.Case("prop:separator-agree", sameOr(refBig, r), fmt.Sprint("long-addenda ", al, " trailing separator"), sep)
+					}
+				}
+			}
 			// C15: corrupt subsets of segments, compare reported (line, record) with the per-segment verdicts
 			ops := []func(string) string{
 				func(s string) string { return s + "\x01" },
